@@ -2,6 +2,8 @@ package sx
 
 import (
 	"fmt"
+	"time"
+	"sync"
 	"os"
 	"go/types"
 	"sort"
@@ -96,12 +98,14 @@ type Machine struct {
 	ufScanned map[*Term]bool
 	known    map[*Term]bool
 	bounds   map[*Term]rng
+	sbounds  map[*Term]srng
 	rmemo    map[*Term]rng
 	frozen   map[*value]bool
 	frozenM  map[*Map]bool
 	freezeOn bool
 	stubs    map[string]value
 	mapOrder int
+	mapSeed  int
 	events   []Event
 	curG     int
 	nextG    int
@@ -143,6 +147,7 @@ type Stats struct {
 	AssertsFail int
 	CegarIters  int
 	KnownHits   int
+	CacheHits   int
 	Reasons     map[string]int
 }
 
@@ -439,6 +444,186 @@ func (m *Machine) scanUF(t *Term) {
 // solve decides satisfiability of pc ∧ extra, refining lazily interpreted
 // functions until the model evaluates natively to true.
 func (m *Machine) solve(extra *Term) (Result, Model) {
+	key, slice, svars := m.sliceKey(extra)
+	if ce, ok := queryCache.Load(key); ok {
+		e := ce.(*cacheEntry)
+		m.Stats.CacheHits++
+		if e.res != Sat {
+			return e.res, nil
+		}
+		// merge the cached assignment of the slice variables into the current model and re-validate natively
+		md := make(Model, len(m.model)+len(e.vals))
+		for k, v := range m.model {
+			md[k] = v
+		}
+		for k, v := range e.vals {
+			md[k] = v
+		}
+		memo := map[*Term]uint64{}
+		ok := m.st.EvalMemo(extra, md, memo) != 0
+		for _, c := range slice {
+			if !ok {
+				break
+			}
+			ok = m.st.EvalMemo(c, md, memo) != 0
+		}
+		if ok {
+			return Sat, md
+		}
+		m.Stats.CacheHits--
+	}
+	var res Result
+	var md Model
+	if m.sol.Kind == "cvc5" && !hasUF(extra, map[*Term]bool{}) && !sliceHasUF(slice) {
+		// floating-point queries: one-shot process on the independent slice only
+		res, md = m.solveOneShot(extra, slice, svars)
+	} else {
+		res, md = m.solveUncached(extra)
+	}
+	if res != Unknown {
+		e := &cacheEntry{res: res}
+		if res == Sat {
+			e.vals = map[string]uint64{}
+			for _, v := range svars {
+				e.vals[v] = md[v]
+			}
+		}
+		queryCache.Store(key, e)
+	}
+	return res, md
+}
+
+func sliceHasUF(slice []*Term) bool {
+	seen := map[*Term]bool{}
+	for _, c := range slice {
+		if hasUF(c, seen) {
+			return true
+		}
+	}
+	return false
+}
+
+func (m *Machine) solveOneShot(extra *Term, slice []*Term, svars []string) (Result, Model) {
+	terms := append(append([]*Term(nil), slice...), extra)
+	var vars []*Term
+	for _, v := range m.st.Vars {
+		for _, n := range svars {
+			if v.Name == n {
+				vars = append(vars, v)
+			}
+		}
+	}
+	m.sol.Queries++
+	t0 := time.Now()
+	res, vals, err := OneShot("cvc5", m.st, terms, vars, m.sol.TimeoutMS)
+	m.sol.Time += time.Since(t0)
+	if err != nil {
+		m.sol.Errors++
+		m.note(err.Error())
+		return Unknown, nil
+	}
+	switch res {
+	case Sat:
+		m.sol.SatN++
+		md := make(Model, len(m.model)+len(vals))
+		for k, v := range m.model {
+			md[k] = v
+		}
+		for k, v := range vals {
+			md[k] = v
+		}
+		// validate natively
+		memo := map[*Term]uint64{}
+		for _, c := range terms {
+			if m.st.EvalMemo(c, md, memo) == 0 {
+				m.note("one-shot model does not evaluate to true natively")
+				return Unknown, nil
+			}
+		}
+		return Sat, md
+	case Unsat:
+		m.sol.UnsatN++
+	default:
+		m.sol.UnknownN++
+	}
+	return res, nil
+}
+
+type cacheEntry struct {
+	res  Result
+	vals map[string]uint64
+}
+
+type cacheKey struct{ a, b uint64 }
+
+var queryCache sync.Map
+
+// ResetQueryCache empties the cross-path query cache (between harnesses).
+func ResetQueryCache() { queryCache = sync.Map{} }
+
+// sliceKey computes the constraint-independence slice of the path condition for a query:
+// the constraints transitively sharing variables with extra.  The key is an order-independent
+// structural hash of the slice plus the hash of extra.
+func (m *Machine) sliceKey(extra *Term) (cacheKey, []*Term, []string) {
+	vars := map[string]bool{}
+	for _, v := range extra.vars {
+		vars[v] = true
+	}
+	used := make([]bool, len(m.pc))
+	var slice []*Term
+	for changed := true; changed; {
+		changed = false
+		for i, c := range m.pc {
+			if used[i] {
+				continue
+			}
+			hit := false
+			for _, v := range c.vars {
+				if vars[v] {
+					hit = true
+					break
+				}
+			}
+			if !hit {
+				continue
+			}
+			used[i] = true
+			slice = append(slice, c)
+			for _, v := range c.vars {
+				if !vars[v] {
+					vars[v] = true
+					changed = true
+				}
+			}
+		}
+	}
+	var s1, s2 uint64
+	for _, c := range slice {
+		a, b := c.hashes()
+		s1 += mix(a, 1)
+		s2 += mix(b, 2)
+	}
+	e1, e2 := extra.hashes()
+	var svars []string
+	for v := range vars {
+		svars = append(svars, v)
+	}
+	return cacheKey{mix(s1, e1), mix(s2, e2)}, slice, svars
+}
+
+func (m *Machine) solveUncached(extra *Term) (Result, Model) {
+	if m.sol.Dead {
+		// the solver process was killed on a timeout: start a new one and re-send this path's context
+		if err := m.sol.Restart(); err != nil {
+			m.note("solver restart failed: " + err.Error())
+			return Unknown, nil
+		}
+		m.sol.Prelude()
+		m.sol.Push()
+		m.pcSent = 0
+		m.lemmas = map[string]bool{}
+		m.ufSeeded = 0
+	}
 	m.flushPC()
 	m.scanUF(extra)
 	// seed: pin every new application at the current model's argument value and at RuneError
@@ -464,6 +649,10 @@ func (m *Machine) solve(extra *Term) (Result, Model) {
 		if res != Sat {
 			if m.sol.Kind == "cvc5" {
 				m.sol.Pop()
+			}
+			if res == Unknown && m.sol.LastErr != "" {
+				m.note("solver: " + m.sol.LastErr)
+				m.sol.LastErr = ""
 			}
 			return res, nil
 		}
@@ -598,6 +787,10 @@ func (m *Machine) branch(cond *Term) bool {
 	if v, ok := m.implied(cond, 0); ok {
 		m.Stats.KnownHits++
 		return v
+	}
+	cond = m.rewriteCmp(cond)
+	if cond.Op == OpConst {
+		return cond.C != 0
 	}
 	k := len(m.decs)
 	var dir bool
@@ -772,12 +965,14 @@ func (m *Machine) RunPath(entry *ssa.Function, it Item) (kind, reason string) {
 	m.ufScanned = map[*Term]bool{}
 	m.known = map[*Term]bool{}
 	m.bounds = map[*Term]rng{}
+	m.sbounds = map[*Term]srng{}
 	m.rmemo = map[*Term]rng{}
 	m.frozen = nil
 	m.frozenM = nil
 	m.freezeOn = false
 	m.stubs = map[string]value{}
 	m.mapOrder = 0
+	m.mapSeed = -1
 	m.events = m.events[:0]
 	m.curG = 0
 	m.nextG = 1
@@ -830,7 +1025,13 @@ func (m *Machine) RunPath(entry *ssa.Function, it Item) (kind, reason string) {
 		m.Stats.Incomplete++
 		m.Stats.Reasons[reason]++
 	}
-	m.sol.Pop()
+	if m.sol.Dead {
+		if err := m.sol.Restart(); err == nil {
+			m.sol.Prelude()
+		}
+	} else {
+		m.sol.Pop()
+	}
 	m.rollback(mark)
 	return
 }
